@@ -222,6 +222,9 @@ def shard_main(argv):
             ctx.case = None
         if hasattr(mod, "teardown"):
             mod.teardown(ctx)
+        _meta = sys.modules.get("vf.meta")
+        if _meta is not None and _meta.PRIMED["primed"]:
+            ctx.count("meta.judged_calls_on_an_evaluator_used_before_with_another_dimensionality", _meta.PRIMED["primed"])
     except Exception:
         ctx.errors.append({"case": None, "tb": traceback.format_exc()[-3000:]})
     res = {
